@@ -36,7 +36,7 @@ CLAIMED = {
             'Lean 4.33 kernel (+ leanchecker in the thorough tier); axioms propext, Classical.choice, Quot.sound only; hand-written models (not generated): their agreement with the code is sampled by the correspondence run; libc strtol/getenv/va_arg semantics; width fields of more than 18 digits are outside the claim (proved absent from every internal format; the C code overflows pointer arithmetic there); a 64-byte well-formed prefix of a longer environment value is accepted (values are truncated to 64 bytes before parsing).',
             'DESIGN.md §4 C20'),
 }
-NOT_YET = """'check not built yet (work in progress in this session; see DESIGN.md §12 implementation order)'
+NOT_YET = 'check not built yet (work in progress in this session; see DESIGN.md §12 implementation order)'
 def main():
     checks = []
     for pid in PROPS:
